@@ -113,8 +113,8 @@ def plans(draw):
       'tag_state': draw(st.sampled_from([None, None, [254, []], [255, [2]], [4095, []], [65534, []], [65537, [2, 3]], [2 ** 23 + 1, []]])) if stack == 'thriftmux' else None,
   }
   if hop == 'mixed' and nports == 2 and draw(st.sampled_from([False, True])):
-    # the balancer is open as soon as its first member is; the second member is still connecting (for about T) when
-    # calls are handed to it, so their deadlines pass inside a transport that has not opened yet
+    # the balancer is open as soon as its first member is; the second member is still connecting (for about T) and
+    # becomes eligible only mid-run (the balancer does not select it before)
     servers[str(ports[1])]['connect'] = [['accept', draw(around)]]
     ret['wait_open'] = False
     ret['balancer'] = 'heap'
